@@ -154,7 +154,7 @@ func toPorcupine(hist []HistOp, init map[string]kvState) (ops []porcupine.Operat
 	for _, h := range hist {
 		r := h.Reply
 		switch h.Op.Kind {
-		case "get", "gat", "mget":
+		case "get", "gat", "gete", "mget":
 			keys := h.Op.Keys
 			if h.Op.Kind != "mget" {
 				keys = []string{h.Op.Key}
